@@ -19,6 +19,7 @@ type vVector struct {
 	Label  string         `json:"label"`
 	Kind   string         `json:"kind"`
 	Values []uint64       `json:"values"`
+	Known  []string       `json:"known"`
 }
 
 type vPruned struct{ why string }
@@ -132,7 +133,14 @@ func vNoNUL(b []byte) bool {
 	return true
 }
 func vNoNULStr(s string) bool    { return vNoNUL([]byte(s)) }
-func vKnownOpen(id string) bool  { return false }
+func vKnownOpen(id string) bool {
+	for _, k := range vVec.Known {
+		if k == id {
+			return true
+		}
+	}
+	return false
+}
 func vSymbolic() bool            { return false }
 func vConc(x int) int            { return x }
 func vConcByte(x byte) byte      { return x }
